@@ -23,7 +23,7 @@ const deadline = 1500 * time.Millisecond
 
 var members = []uint16{1, 2, 3}
 
-var ops = []string{"KG", "KGt", "KG||KG", "SG:a", "SG:b", "SGt1:a", "SGt2:a", "SGtp:a", "SGbad:a", "SG:a||SG:b", "SG:a||SG:a", "late", "foreign:a", "dup:a"}
+var ops = []string{"KG", "KGt", "KGt2", "KGtp", "KG||KG", "SG:a", "SG:b", "SGt1:a", "SGt2:a", "SGtp:a", "SGbad:a", "SG:a||SG:b", "SG:a||SG:a", "late", "foreign:a", "dup:a"}
 
 func schemeOf(p tss.MpcParty) interface{} {
 	if sc, ok := p.(*threshold.Scheme); ok {
@@ -146,6 +146,44 @@ func (e *env) runOp(op string) {
 		for _, id := range []uint16{1, 2} {
 			e.expect("kg", id, false, "KGt")
 		}
+	case op == "KGt2":
+		// the membership agreement (second synchronisation of a key generation) never completes:
+		// party 3's traffic on every synchronisation topic but the first is withheld
+		first := world.Sha([]byte(tss.DkgTopicName))
+		w.Net.Filter = func(p *world.Packet) []*world.Packet {
+			if p.From == 3 && p.Type == 1 && !bytes.Equal(p.Topic, first) {
+				return nil
+			}
+			return []*world.Packet{p}
+		}
+		for _, id := range members {
+			scen.StartKeyGen(w, w.Parties[id], e.rs, e.key("kg", id), 3, 3, deadline)
+		}
+		e.loop()
+		if e.mode == "silent" {
+			for _, id := range members {
+				e.expect("kg", id, true, "KGt2-silent")
+			}
+			break
+		}
+		e.expect("kg", 1, false, "KGt2")
+		e.expect("kg", 2, false, "KGt2")
+		e.expect2ret("kg", 3)
+	case op == "KGtp":
+		// the protocol itself never completes: party 3's protocol payloads are withheld
+		w.Net.Filter = func(p *world.Packet) []*world.Packet {
+			if p.From == 3 && p.Type == 2 && len(p.Data) > 0 && p.Data[0] == 255 {
+				return nil
+			}
+			return []*world.Packet{p}
+		}
+		for _, id := range members {
+			scen.StartKeyGen(w, w.Parties[id], e.rs, e.key("kg", id), 3, 3, deadline)
+		}
+		e.loop()
+		e.expect("kg", 1, false, "KGtp")
+		e.expect("kg", 2, false, "KGtp")
+		e.expect2ret("kg", 3)
 	case op == "KG||KG":
 		scen.StartKeyGen(w, w.Parties[1], e.rs, e.key("kg", 1), 3, 3, deadline)
 		w.Settle()
